@@ -7,7 +7,7 @@ import z3
 
 from . import core, loader, units
 from .core import tz
-from .model_scipp import (Var, Buf, build_modules, F32, F64, I32, I64, VEC, BOOL, DType, SIN, COS, ATAN2, ASIN, EXP,
+from .model_scipp import (Var, Buf, build_modules, F32, F64, I32, I64, VEC, BOOL, DType, SIN, COS, ATAN2, ASIN, ACOS, EXP,
                           PI, CONST_AXIOMS, H_PLANCK, M_NEUTRON, NAMED, MATS)
 from .units import Unit, symbolic_unit, UnitError
 
@@ -56,7 +56,8 @@ def arg(name, dim, dtype=F64, unit=None, dims=(), origin='argument', sym_scale=T
 
 def hyps_of(path, base=()):
     """All hypotheses valid on a path: base requires, constants, unit-scale axioms, fresh-symbol axioms, PC."""
-    return list(base) + CONST_AXIOMS + units.scale_axioms() + path.axioms + path.pc + trig_axioms(path)
+    hy = list(base) + CONST_AXIOMS + path.axioms + path.pc + trig_axioms(path)
+    return hy  # definitional axioms (sqrt symbols, unit scales) are added per obligation by Check.prove (cone of influence)
 
 
 def trig_axioms(path_or_log):
@@ -70,6 +71,16 @@ def trig_axioms(path_or_log):
         elif e[0] == 'trig' and e[1] == 'cos':
             _, _, a, t = e
             ax += [t <= 1, t >= -1]
+        elif e[0] == 'atan2':
+            _, y, x, t = e
+            ax += atan2_axioms(y, x, t)
+        elif e[0] == 'acos':
+            _, x, t = e
+            ax += [z3.Implies(z3.And(x >= -1, x <= 1), z3.And(t >= 0, t <= PI, COS(t) == x))]
+        elif e[0] == 'asin':
+            _, x, t = e
+            ax += [z3.Implies(z3.And(x >= -1, x <= 1), z3.And(2 * t >= -PI, 2 * t <= PI, SIN(t) == x, COS(t) >= 0,
+                                                              COS(t) * COS(t) == 1 - x * x))]
         elif e[0] == 'exp':
             _, a, t = e
             ax += [t > 0, z3.Implies(a == 0, t == 1), z3.Implies(a <= 0, t <= 1), z3.Implies(a >= 0, t >= 1)]
@@ -90,3 +101,27 @@ def dotz(a, b):
 
 def crossz(A, B):
     return [A[1] * B[2] - A[2] * B[1], A[2] * B[0] - A[0] * B[2], A[0] * B[1] - A[1] * B[0]]
+
+
+def atan2_axioms(y, x, t):
+    """Textbook facts about t = atan2(y, x), instantiated for this occurrence."""
+    nz = z3.Or(x != 0, y != 0)
+    r = z3.Real(f'hyp!{t.get_id()}')
+    s2 = x * x + y * y
+    return [
+        r >= 0, r * r == s2,
+        z3.Implies(nz, z3.And(t > -PI, t <= PI)),
+        z3.Implies(z3.And(nz, x >= 0, y >= 0), z3.And(t >= 0, 2 * t <= PI)),
+        z3.Implies(z3.And(nz, y >= 0), z3.And(t >= 0, t <= PI)),
+        z3.Implies(z3.And(nz, y < 0), t < 0),
+        z3.Implies(z3.And(y == 0, x > 0), t == 0),
+        z3.Implies(z3.And(y == 0, x < 0), t == PI),
+        z3.Implies(z3.And(y > 0, x == 0), 2 * t == PI),
+        z3.Implies(nz, z3.And(COS(t) * r == x, SIN(t) * r == y)),
+        z3.Implies(nz, COS(2 * t) * s2 == x * x - y * y),
+    ]
+
+
+def cos_injective(t1, t2):
+    """cos is injective on [0, pi] (instantiated)."""
+    return z3.Implies(z3.And(t1 >= 0, t1 <= PI, t2 >= 0, t2 <= PI, COS(t1) == COS(t2)), t1 == t2)
